@@ -28,7 +28,7 @@ SPEC = {
     "harness": "harness.c16",
     "technique": "Lean 4 theorems over an executable model of the mapping generator (sorter termination by measure, membership/permutation, topological order on acyclic graphs, step cover, fields/lookups partition, after-directive soundness, totality refuted by D14, continuation invariance for the pinned access kind (D05 repaired by a fix: commit)) + pins regenerated from the AST + differential correspondence at function level and end to end",
     "level_text": "Machine-checked proof, for every table list, dependency list and load_after declaration list, that the model of sort_dependencies terminates within its fuel and returns exactly the visible tables (a permutation without declarations, possibly with repeats with them), parents first when the graph is acyclic; that load steps cover every (table, update key) exactly once; that fields and lookups partition the visible fields; and that every lookup whose target has a first step not earlier carries an after: directive naming the target's last step. The model is tied to the source by bridging lemmas over constants, conditions and wiring regenerated from the AST on every run and by differential runs of the real mapping generator.",
-    "level_note": "Trusted: Lean kernel; py2lean; the harness; CPython dict/list/sort semantics (stable sort, insertion-ordered dict), str.lower on ASCII names. mapping_total is refuted (D14) and kept as a _partial theorem with an explicit hypothesis; continuation invariance holds for the access kind pinned from the repaired source (mapping_continuation_invariant_pinned), the refutation for the old getattr access is kept. Run-time discovery of dependencies (which rows hold references) is covered by the end-to-end correspondence and the row oracle, not by a theorem.",
+    "level_note": "Trusted: Lean kernel; py2lean; the harness; CPython dict/list/sort semantics (stable sort, insertion-ordered dict), str.lower on ASCII names. mapping_total is refuted (D14) and kept as a _partial theorem with an explicit hypothesis; continuation invariance holds for the access kind pinned from the repaired source (mapping_continuation_invariant_pinned), the refutation for the old getattr access is kept as an explicitly parameterised fact; fields_lookups_partition holds at full strength since fix 8e9f95d (a record-type column holding references is a lookup only). Run-time discovery of dependencies (which rows hold references) is covered by the end-to-end correspondence and the row oracle, not by a theorem.",
     "assumptions": [
         "Python list.sort is stable; dict preserves insertion order",
         "table and field names are ASCII (str.lower modelled by Char.toLower)",
@@ -392,8 +392,6 @@ def gen_func_case(rng):
         tables.append({"name": nm, "fields": fl, "templates": ts})
     for i, t in enumerate(tables):
         for f in t["fields"]:
-            if f.lower().replace("_", "") in ("recordtype", "recordtypeid"):
-                continue  # a record-type column holding references: fixed case only (known finding)
             if rng.random() < 0.45:
                 if shape == "acyclic":
                     cands = names[:i]
@@ -572,9 +570,9 @@ def pinned_access():
     try:
         with open(p) as f:
             m = re.search(r'def depsLoadAccess : String :=\s*"(\w+)"', f.read())
-        return m.group(1) if m else "getattr"
+        return m.group(1) if m else "get"
     except OSError:
-        return "getattr"
+        return "get"
 
 
 def visible_deps(deps):
